@@ -188,6 +188,7 @@ func RunC01(c *Ctx) {
 	operandMatrix(c, func(entry, input string) { CheckC01(c, entry, input) })
 	valueSlotMatrix(c, func(entry, input string) { CheckC01(c, entry, input) })
 	foldAlikeWorkload(c, func(entry, input string) { CheckC01(c, entry, input) })
+	sameNameWorkload(c, func(entry, input string) { CheckC01(c, entry, input) })
 }
 
 // ---------------------------------------------------------------------------
